@@ -211,6 +211,9 @@ func (a *Antispammer) Maintenance() {
 		}
 
 		if isMore && x < threshold {
+			// the remainder was counted while the source was banned: it must not
+			// count towards the next ban
+			x = 0
 			a.banMetric.WithLabelValues(source.name).Dec()
 			a.logger.Info("source has been unbanned", zap.Any("id", sourceID))
 		}
